@@ -273,6 +273,23 @@ def lin_check(sc, tier, seed, prop, walk_module, n_hist, depth, rule, assumption
                         progs = {str(i + 1): p for i, p in enumerate(progs)}
                     cases.append({'id': len(cases), 'pre': op['pre'], 'progs': progs, 'mode': 'pipe', 'chunk': spec.get('chunk', 0), 'name': spec['name']})
             break
+    # forced interleavings: one command held where it first releases the data store lock, a conflicting program run
+    # in the gap (MC_conc: GX x GY)
+    ngated = 0
+    for op in tlc_json_lines(out):
+        if 'gated' in op:
+            pairs_ = sorted(op['gated'], key=lambda g: json.dumps(g, sort_keys=True))
+            if tier == 'quick':
+                import random as _r
+                _r.Random(seed).shuffle(pairs_)
+                gx_first = {}
+                for g in pairs_:
+                    gx_first.setdefault(json.dumps(g['x']), []).append(g)
+                pairs_ = [g for gs in gx_first.values() for g in gs[:4]]      # every X against four of the Y programs
+            for g in pairs_:
+                cases.append({'id': len(cases), 'pre': op['pre'], 'progs': {'1': [g['x']], '2': g['y']}, 'mode': 'gated', 'name': 'gated'})
+                ngated += 1
+            break
     hists = run_conc(exe, sc, cases)
     ok = [h for h in hists if h['status'] == 'ok']
     for h in hists:
@@ -294,7 +311,7 @@ def lin_check(sc, tier, seed, prop, walk_module, n_hist, depth, rule, assumption
         v.cov['transitions'] += s_.get('generated', 0)
     v.cov['tlc_runs'].append({'model': walk_module + ' (simulation: programs)', 'walks': len(walks), 'wall_s': st['wall_s']})
     v.cov['tlc_runs'].extend({'model': 'Trace_Lin (validation)', **s_} for s_ in stats)
-    v.cov['engines']['conc'] = {'histories': len(hists), 'accepted': len(accepted), 'rejected': len(rejected),
+    v.cov['engines']['conc'] = {'histories': len(hists), 'accepted': len(accepted), 'rejected': len(rejected), 'forced_interleavings': ngated,
                                 'with_overlapping_operations': sum(1 for h in ok if h.get('overlaps', 0) > 0),
                                 'overlapping_operation_pairs': sum(h.get('overlaps', 0) for h in ok)}
     if ok:
